@@ -478,3 +478,13 @@ pub fn interpolate_f32_rec(a: f32, b: f32, amount: f64) -> f32 {
     }
     r
 }
+
+/// Stand-in for `<Vec<T> as Drop>::drop` in object-level harnesses: dropping the *elements* of a vector is skipped
+/// (they leak).  This cuts the recursive drop glue (`Box<dyn Effect>` -> `Delay` -> `Vec<Box<dyn Effect>>` ...,
+/// `Track` -> `Arena<Track>` -> ...) that CBMC otherwise unrolls at every arena-slot assignment; none of the
+/// obligations that use it is about destruction.
+pub fn vec_drop_noop<T>(_v: &mut Vec<T>) {}
+
+/// Stand-in for `core::ptr::drop_in_place` (explicit calls only, i.e. the element-dropping calls inside `Vec`,
+/// `VecDeque`, `Box<[T]>` ... drop impls): elements leak instead of being dropped.  Same purpose as above.
+pub unsafe fn drop_in_place_noop<T: ?Sized>(_to_drop: *mut T) {}
